@@ -187,6 +187,9 @@ func (c *Ctx) Fail(sig string, rp Replay) {
 	dir := filepath.Join(VerifDir(), "build", c.Prop, "replays")
 	_ = os.MkdirAll(dir, 0o755)
 	name := fmt.Sprintf("%s-%s-%d.json", c.Prop, sanitize(sig), len(c.violationSigs))
+	if w := os.Getenv("VERIF_WORKER"); w != "" {
+		name = fmt.Sprintf("%s-%s-w%s-%d.json", c.Prop, sanitize(sig), w, len(c.violationSigs))
+	}
 	path := filepath.Join(dir, name)
 	b, _ := json.MarshalIndent(rp, "", " ")
 	_ = os.WriteFile(path, b, 0o644)
@@ -281,7 +284,77 @@ func (c *Ctx) WriteEvidence() error {
 	if err != nil {
 		return err
 	}
+	if out := os.Getenv("VERIF_EVIDENCE_OUT"); out != "" {
+		return os.WriteFile(out, b, 0o644) // a worker of a thorough run: the parent merges
+	}
 	return os.WriteFile(filepath.Join(dir, c.Prop+".json"), b, 0o644)
+}
+
+// MergeEvidence combines the evidence files of the n workers of a thorough run (build/<id>/evidence.worker<i>.json)
+// into evidence/<id>.json: counts and distributions are summed (cases are distinct across workers up to seed collisions,
+// each worker counting distinct cases of its own seed), samples and static fields are taken from worker 0.
+func MergeEvidence(prop, tier string, seed uint64, n int, dir string) error {
+	var merged map[string]any
+	sumKeys := []string{"evaluations", "distinct_nontrivial", "traces_validated_against_impl"}
+	dist := map[string]float64{}
+	known := map[string]any{}
+	var wall, viol float64
+	var seeds []any
+	for i := 0; i < n; i++ {
+		b, err := os.ReadFile(filepath.Join(dir, fmt.Sprintf("evidence.worker%d.json", i)))
+		if err != nil {
+			return err
+		}
+		var ev map[string]any
+		if err := json.Unmarshal(b, &ev); err != nil {
+			return err
+		}
+		cov, _ := ev["coverage"].(map[string]any)
+		seeds = append(seeds, ev["seed"])
+		if w, ok := ev["wall_s"].(float64); ok && w > wall {
+			wall = w
+		}
+		if v, ok := ev["violations"].(float64); ok {
+			viol += v
+		}
+		if d, ok := cov["distribution"].(map[string]any); ok {
+			for k, v := range d {
+				if f, ok := v.(float64); ok {
+					dist[k] += f
+				}
+			}
+		}
+		if kf, ok := cov["known_findings_hit"].(map[string]any); ok {
+			for k, v := range kf {
+				known[k] = v
+			}
+		}
+		if merged == nil {
+			merged = ev
+			continue
+		}
+		mcov := merged["coverage"].(map[string]any)
+		for _, k := range sumKeys {
+			a, _ := mcov[k].(float64)
+			b2, _ := cov[k].(float64)
+			mcov[k] = a + b2
+		}
+	}
+	mcov := merged["coverage"].(map[string]any)
+	mcov["distribution"] = dist
+	mcov["known_findings_hit"] = known
+	mcov["workers"] = n
+	mcov["worker_seeds"] = seeds
+	merged["seed"] = seed
+	merged["wall_s"] = wall
+	merged["violations"] = viol
+	b, err := json.MarshalIndent(merged, "", " ")
+	if err != nil {
+		return err
+	}
+	edir := filepath.Join(VerifDir(), "evidence")
+	_ = os.MkdirAll(edir, 0o755)
+	return os.WriteFile(filepath.Join(edir, prop+".json"), b, 0o644)
 }
 
 func sortedDist(m map[string]int) map[string]int {
